@@ -7,6 +7,7 @@ THEOREMS = [
     ("EG.props.C16", "C16_current_connection_intact"),
     ("EG.props.C16", "C16_superseded_teardown_is_noop"),
     ("EG.props.C16", "C16_reconnect_restores_subscriptions"),
+    ("EG.props.C16", "C16_reconnect_reads_store"),
     ("EG.props.C16", "C16_clean_discards"),
     ("EG.props.C16", "C16_admin_delete_disconnects"),
     ("EG.props.C16", "C16_registration_survives"),
@@ -16,7 +17,7 @@ THEOREMS = [
 HARNESSES = [
     dict(name="life", pkg="pkg/object/mqttproxy",
          files=["harness/mqttproxy/zz_verif_c15_common_test.go", "harness/mqttproxy/zz_verif_c16_test.go"],
-         run="TestVerifC16", groups=["life"], timeout=900),
+         run="TestVerifC16", groups=["life"], timeout=420),
 ]
 GROUPS = {"life": "(check_life pinned)"}
 EXPLAIN = {"life": "(explain_life pinned)"}
@@ -96,6 +97,8 @@ def encode(c):
             t = C("LDrop", Z(op["k"]), B(op.get("how") == "poke"), B(st.get("eof", False)))
         elif k == "admin":
             t = C("LAdmin", S(op["cid"]))
+        elif k == "extput":
+            t = C("LExtPut", S(op["cid"]), _topics(op.get("subs")))
         elif k == "pub":
             t = C("LPub", S(op["topic"]), L([T(S(f), B(m)) for f, m in zip(st.get("filters") or [], st.get("match") or [])]),
                   L([Z(x) for x in st.get("recv") or []]))
